@@ -101,7 +101,14 @@ fn parse_advanced_quantity<'i>(bp: &mut BlockParser<'_, 'i>) -> Option<ParsedQua
 
     let value_tokens = bp.consume_while(|t| !matches!(t, T![word]));
 
-    if value_tokens.is_empty() || value_tokens.last().unwrap().kind != T![ws] {
+    // the value and the unit have to be separated by whitespace, maybe with
+    // block comments around it
+    let separated = value_tokens
+        .iter()
+        .rev()
+        .take_while(|t| matches!(t.kind, T![ws] | T![block comment]))
+        .any(|t| t.kind == T![ws]);
+    if !separated {
         return None;
     }
     let value_tokens = {
